@@ -139,9 +139,13 @@ def run(ctx):
         os.makedirs(os.path.join(prevd, "tmp"))
         pd = dict(one=rng.choice([100, 200, 7]), two=rng.choice([50, 3]), end=rng.choice([300, 1000, 61]))
         pexit_two = rng.choice([0, 0, 1])       # a failed step of the previous invocation is not a reference
+        # every other time the previous invocation ran another step list (a step in front that is gone now):
+        # the steps are the same by name, their ids are not
+        sh_ = 1 if t % 2 == 1 else 0
         open(os.path.join(prevd, "step.csv"), "w").write(
-            "step,name,exit,duration,delta,log,user,time,skip\n1,one,0,%d,0,001-one.log,root,1,0\n2,two,%d,%d,0,002-two.log,root,2,0\n" % (pd["one"], pexit_two, pd["two"]) +
-            ("3,end,0,%d,0,,root,5,0\n" % pd["end"] if pexit_two == 0 else ""))
+            "step,name,exit,duration,delta,log,user,time,skip\n" + ("1,prepare,0,4,0,001-prepare.log,root,1,0\n" if sh_ else "") +
+            "%d,one,0,%d,0,001-one.log,root,1,0\n%d,two,%d,%d,0,002-two.log,root,2,0\n" % (1 + sh_, pd["one"], 2 + sh_, pexit_two, pd["two"]) +
+            ("%d,end,0,%d,0,,root,5,0\n" % (3 + sh_, pd["end"]) if pexit_two == 0 else ""))
         cfg = dict(steps=[("one", False, 0, 0), ("two", False, 0, 0)], skip=[], cmdline_skip=[], ncpu=1)
         res = cr.run(cfg, root=root, keep_root=True, hook=False)
         rows = {r["name"]: r for r in res["rows"]}
